@@ -25,7 +25,7 @@ pub struct Case {
     pub perm: u8,
 }
 
-const VARS: [&str; 4] = ["a", "b", "c", "x"];
+const VARS: [&str; 4] = ["a", "b", "e", "rate"];
 const FUNCS: [&str; 4] = ["f", "g", "min", "len"];
 
 fn rename_var(name: &str, perm: u8) -> String {
@@ -123,6 +123,56 @@ pub fn check_source(src: &str, ctx: &Ctx, perm: u8, expected_ast: Option<&Ast>, 
     for (which, want, got) in &expectations {
         if want != got {
             return fail(format!("C14/{} differs from the occurrence list", which), format!("{:?}", want), format!("{:?}", got), case, src.len());
+        }
+    }
+    // however the iterator is consumed (external next(), internal fold / for_each / last / count /
+    // nth after a partial advance), the sequence is the same
+    let all = &expectations[0].1;
+    for k in 0..all.len().min(4) {
+        let mut it = tree.iter_identifiers();
+        for _ in 0..k {
+            it.next();
+        }
+        let folded: Vec<String> = it.fold(Vec::new(), |mut acc, s| {
+            acc.push(s.to_string());
+            acc
+        });
+        if folded != all[k..] {
+            return fail(
+                "C14/iter_identifiers consumed by fold after a partial advance differs",
+                format!("{:?}", &all[k..]),
+                format!("{:?}", folded),
+                case,
+                src.len(),
+            );
+        }
+        let mut seen = Vec::new();
+        let mut it = tree.iter_variable_identifiers();
+        for _ in 0..k {
+            if let Some(s) = it.next() {
+                seen.push(s.to_string());
+            }
+        }
+        it.for_each(|s| seen.push(s.to_string()));
+        if seen != expectations[1].1 {
+            return fail(
+                "C14/iter_variable_identifiers consumed by for_each after a partial advance differs",
+                format!("{:?}", expectations[1].1),
+                format!("{:?}", seen),
+                case,
+                src.len(),
+            );
+        }
+        let last = tree.iter_identifiers().skip(k).last().map(|s| s.to_string());
+        if last.as_ref() != all.last().filter(|_| k < all.len()) {
+            return fail("C14/iter_identifiers().skip(k).last() differs", format!("{:?}", all.last()), format!("{:?}", last), case, src.len());
+        }
+        if tree.iter_identifiers().skip(k).count() != all.len() - k {
+            return fail("C14/iter_identifiers().skip(k).count() differs", (all.len() - k).to_string(), "other".to_string(), case, src.len());
+        }
+        let nth = tree.iter_function_identifiers().nth(k).map(|s| s.to_string());
+        if nth.as_ref() != expectations[4].1.get(k) {
+            return fail("C14/iter_function_identifiers().nth(k) differs", format!("{:?}", expectations[4].1.get(k)), format!("{:?}", nth), case, src.len());
         }
     }
     // mutable variants: same sequence, and overwriting changes exactly those occurrences
@@ -340,7 +390,16 @@ pub fn run(rep: &Report) {
         let toks = render_tokens(&c.ast, &mut BitChoices::new(&c.bits));
         let src = tok::render_spaced(&toks);
         l.sample(3, || json!(vcore::clip(&src, 140)));
-        check_source(&src, &c.ctx, c.perm, Some(&c.ast), l)
+        check_source(&src, &c.ctx, c.perm, Some(&c.ast), l)?;
+        // the same program written without spaces (when the reference tokenizer reads it back)
+        let tight = tok::render_tight(&toks);
+        match tok::lex(&tight) {
+            Ok(o) if o.toks == toks && !o.d6 => {
+                l.label("also written without spaces");
+                check_source(&tight, &c.ctx, c.perm, Some(&c.ast), l)
+            },
+            _ => Ok(()),
+        }
     });
 }
 
